@@ -16,6 +16,19 @@ Definition spec_ok (cs : tcase) : bool :=
       match r with
       | RErr => same_store_b init after
       | ROk =>
+          (* a successful update: new first line, everything after it byte for byte as before *)
+          match o with
+          | OpUpdate u _ =>
+              match user_exists init u with
+              | ExYes adm =>
+                  match dlookup (u ++ ext_of adm) init, dlookup (u ++ ext_of adm) after with
+                  | Some (File old), Some (File new) => beq (after_first_line new) (after_first_line old)
+                  | _, _ => false
+                  end
+              | _ => false
+              end
+          | _ => true
+          end &&
           match target_of o with
           | Some u => others_same u init after &&
                       node_eqb (Dir (tmp_kids_b init)) (Dir (tmp_kids_b after)) &&
